@@ -1469,7 +1469,19 @@ def make_machine(world_cls, checks, cfg_strategy, rule_weights=None):
             d = data.draw
             si = d(st.integers(0, self.ns - 1))
             n = d(st.integers(2, 3))
-            self._do({"_": "txn", "si": si, "items": [{"op": "cancel", "o": k, "pool": "exec", "red": None} for k in range(n)], "raise_through": False})
+            if self.w is not None and d(st.booleans()):
+                # make sure enough orders rest: n placements behind the book, acknowledged before the batch
+                r = d(st.integers(0, self.nr - 1))
+                for k in range(n):
+                    self._do({"_": "req", "op": "place", "si": si, "r": r, "side": "BACK", "type": "LIMIT", "tick": min(self.nt - 1, self.mids[r] + 12 + 2 * k),
+                              "size": 2.0, "pers": "LAPSE", "trade": "new"})
+                self._do({"_": "book", "dt": 1000, "rc": []})
+            if d(st.integers(0, 2)) == 0:
+                # the same with persistence updates (one UPDATE package, failing instructions are charged one by one)
+                self._do({"_": "txn", "si": si, "items": [{"op": "update", "o": k, "pool": "exec", "pers": d(st.sampled_from(["PERSIST", "LAPSE"]))} for k in range(n)],
+                          "raise_through": False})
+            else:
+                self._do({"_": "txn", "si": si, "items": [{"op": "cancel", "o": k, "pool": "exec", "red": None} for k in range(n)], "raise_through": False})
             if d(st.integers(0, 3)):
                 self._do({"_": "suspend", "dt": 50, "bump": False})
                 self._do({"_": "book", "dt": 1000, "rc": []})
